@@ -77,6 +77,15 @@ def evaluate(case):
     _, f2g, _ = tr.F_to_G(x, y, xo)
     if np.abs(np.asarray(f2g) - v * 2 / np.pi).max() > 1e-12 * sc:
         fails.append("F_to_G is not (2/pi) * core transform")
+    # "every output grid, every data vector": integer-typed copies of integer-valued grids/data give the same values
+    xi = np.arange(-2, max(3, int(min(x[-1], 12))) + 1)
+    _, vf, _ = tr.fourier_transform(x, y, xi.astype(float))
+    try:
+        _, vi, _ = tr.fourier_transform(x, y, xi)
+        if np.asarray(vi).shape != np.asarray(vf).shape or np.abs(np.asarray(vi, dtype=float) - np.asarray(vf)).max() > 1e-12 * sc:
+            fails.append("fourier_transform: an integer-typed output grid gives different (truncated) values than the same grid as floats")
+    except Exception as ex:  # noqa: BLE001
+        fails.append(f"fourier_transform: an integer-typed output grid raises {type(ex).__name__}")
     ft = case.get("fort")
     if ft:
         import fortran
